@@ -792,10 +792,15 @@ fn git_fallback_quirk(spec: &str, git: &Outcome, gix: &Outcome) -> bool {
         let has_describe_token = spec.match_indices("-g").any(|(p, _)| {
             let rest = &spec[p + 2..];
             let hex = rest.bytes().take_while(u8::is_ascii_hexdigit).count();
-            hex >= 4 && (hex == rest.len() || rest.as_bytes()[hex] == b':')
+            hex >= 4
         });
         let range_like = spec.contains("..");
-        if range_like && has_describe_token && (l.len() == 1 || (l.len() == 3 && !l[2].starts_with('^'))) {
+        // three lines without a negated merge base: two stray lines of a failed `A...B` plus the whole-string fallback
+        // (reached through describe output or a reflog date, see above)
+        if range_like && l.len() == 3 && !l[2].starts_with('^') {
+            return true;
+        }
+        if range_like && has_describe_token && l.len() == 1 {
             return true;
         }
     }
@@ -1043,8 +1048,8 @@ fn run_world(t: &mut Tape, c: &mut Case, strict: bool, known: &HashSet<String>) 
         // byte that follows the case on the tape (0 / no match: the first one met), so that every pinned case can name
         // its own class; the message says where that byte sits.
         if strict {
+            let at = t.consumed().len() + 1;
             let focus = t.u8();
-            let at = t.consumed().len();
             let chosen = all_known.iter().find(|(sig, _)| focus_code(sig) == focus).or(all_known.first()).cloned();
             if let Some((sig, msg)) = chosen {
                 c.fail_sig(&sig, format!("{msg} [focus byte {focus} at tape offset {}]", at.saturating_sub(1)));
@@ -1066,7 +1071,7 @@ pub fn main() {
 
     let known = load_known();
 
-    ck.sub("world", SubCfg::new(60, 1_500).max_len(2400).max_shrink(8), |t, c| run_world(t, c, false, &known));
+    ck.sub("world", SubCfg::new(120, 3_000).max_len(2400).max_shrink(8), |t, c| run_world(t, c, false, &known));
     // replays of the pinned known findings (and one more random world) with known classes reported
     ck.sub("pinned", SubCfg::new(1, 4).max_len(2400).max_shrink(4), |t, c| run_world(t, c, true, &known));
 
